@@ -17,9 +17,10 @@
 (* harness (spec -> implementation), the crate's verifier against the      *)
 (* accept/refuse decisions (implementation -> spec).                       *)
 (***************************************************************************)
-EXTENDS Naturals, Integers, Sequences, FiniteSets, FlatTree, TLC
+EXTENDS Naturals, Integers, Sequences, FiniteSets, FlatTree, TLC, IOUtils
 
 CONSTANTS Sizes      \* sequence of block sizes of the writer's log, e.g. <<1, 2, 1, 1, 2>>
+SeekMut == IF "SEEKMUT" \in DOMAIN IOEnv THEN IOEnv.SEEKMUT ELSE "none"
 
 WLen == Len(Sizes)
 None == [none |-> TRUE]
@@ -86,15 +87,25 @@ Climb(cur, q, cn, steps, oracle) ==
             Climb(p, s.q, cn \o <<s.node, p>>, steps - 1, oracle)
 
 \* block section: [i, val, nodes]; k = number of nodes an honest proof carries (from missing_nodes)
-VerifyBlock(blk, k, oracle) ==
+\* extra: the root of the seek section when there is one (NodeQueue::new(nodes, root)), else None
+VerifyBlockX(blk, k, oracle, extra) ==
   LET leaf == N(2 * blk.i, blk.size, Leaf(blk.size, blk.val)) IN    \* block_node(index, value)
-  Climb(leaf, Q(blk.nodes, None), <<leaf>>, k, oracle)
+  Climb(leaf, Q(blk.nodes, extra), <<leaf>>, k, oracle)
+VerifyBlock(blk, k, oracle) == VerifyBlockX(blk, k, oracle, None)
 
 \* hash section [i, nodes]: the first node is the requested node itself, then siblings as above
-VerifyHash(hs, k, oracle) ==
-  LET s == Shift(Q(hs.nodes, None), hs.i, oracle) IN
+VerifyHashX(hs, k, oracle, extra) ==
+  LET s == Shift(Q(hs.nodes, extra), hs.i, oracle) IN
   IF ~s.ok THEN [ok |-> FALSE, root |-> None, nodes |-> <<>>, q |-> s.q]
   ELSE Climb(s.node, s.q, <<s.node>>, k, oracle)
+VerifyHash(hs, k, oracle) == VerifyHashX(hs, k, oracle, None)
+
+\* seek section: the first node is where the prover's seek ended, then one sibling per node up to the
+\* node that the block (or hash) section takes as the sibling it does not carry itself
+VerifySeek(nodes) ==
+  IF nodes = <<>> THEN [ok |-> TRUE, root |-> None, nodes |-> <<>>]
+  ELSE LET r == Climb(nodes[1], Q(Tail(nodes), None), <<nodes[1]>>, 0, FALSE) IN
+       [ok |-> r.ok, root |-> r.root, nodes |-> r.nodes]
 
 ---------------------------------------------------------------------------
 (* MerkleTreeChangeset::append_root: push, then merge equal-height neighbours *)
@@ -151,14 +162,16 @@ VerifyUpgrade(rep, up, blockroot, fork, oracle) ==
 ---------------------------------------------------------------------------
 (* verify_proof + commitable (src/core.rs verify_and_apply_proof).          *)
 (* proof = [fork, block | None, hash | None, up | None]; mut names a deviation *)
-VerifyProof(rep, proof, k, oracle, mut) ==
+\* seeknodes: the nodes of the proof's seek section (<<>>: none)
+VerifyProofX(rep, proof, k, oracle, mut, seeknodes) ==
   IF proof.fork # 0 THEN [ok |-> FALSE, why |-> "fork"]
-  ELSE LET \* normalize_data: the block section if there is one, else the hash section; what is stored
+  ELSE IF ~VerifySeek(seeknodes).ok THEN [ok |-> FALSE, why |-> "seek nodes"]
+  ELSE LET vs == VerifySeek(seeknodes) \* normalize_data: the block section if there is one, else the hash section; what is stored
            \* afterwards (src/core.rs) is always the block section's value
            useHash == IF mut = "hash_section_wins" THEN ~IsNone(proof.hash) ELSE IsNone(proof.block) /\ ~IsNone(proof.hash)
-           vb == IF useHash THEN VerifyHash(proof.hash, k, oracle)
-                 ELSE IF IsNone(proof.block) THEN [ok |-> TRUE, root |-> None, nodes |-> <<>>, q |-> Q(<<>>, None)]
-                 ELSE VerifyBlock(proof.block, k, oracle) IN
+           vb == IF useHash THEN VerifyHashX(proof.hash, k, oracle, vs.root)
+                 ELSE IF IsNone(proof.block) THEN [ok |-> TRUE, root |-> vs.root, nodes |-> <<>>, q |-> Q(<<>>, None)]
+                 ELSE VerifyBlockX(proof.block, k, oracle, vs.root) IN
        IF ~vb.ok THEN [ok |-> FALSE, why |-> "block nodes"]
        ELSE LET vu == IF IsNone(proof.up)
                       THEN [ok |-> TRUE, roots |-> RepRoots(rep), nodes |-> <<>>, len |-> rep.rl,
@@ -172,11 +185,13 @@ VerifyProof(rep, proof, k, oracle, mut) ==
                           (~Stored(rep, unverified.idx) \/ TrueNode(unverified.idx).h # unverified.h)
                        THEN [ok |-> FALSE, why |-> "block root differs from the stored node"]
                        ELSE [ok |-> TRUE, len |-> vu.len, upgraded |-> vu.upgraded,
-                             nodes |-> vb.nodes \o vu.nodes,
+                             nodes |-> vs.nodes \o vb.nodes \o vu.nodes,
                              blk |-> IF IsNone(proof.block) THEN -1 ELSE proof.block.i,
                              val |-> IF IsNone(proof.block) THEN -1 ELSE proof.block.val,
                              bsize |-> IF IsNone(proof.block) THEN -1 ELSE proof.block.size,
                              askedBlock |-> vb.q.asked, askedUp |-> vu.asked]
+
+VerifyProof(rep, proof, k, oracle, mut) == VerifyProofX(rep, proof, k, oracle, mut, <<>>)
 
 \* applying an accepted changeset
 Apply(rep, res) ==
@@ -228,6 +243,62 @@ HonestProof(rep, b, h, wl) ==
 Shape(p) == [block |-> IF IsNone(p.block) THEN <<>> ELSE [j \in 1..Len(p.block.nodes) |-> p.block.nodes[j].idx],
              hash |-> IF IsNone(p.hash) THEN <<>> ELSE [j \in 1..Len(p.hash.nodes) |-> p.hash.nodes[j].idx],
              up |-> IF IsNone(p.up) THEN <<>> ELSE [j \in 1..Len(p.up.nodes) |-> p.up.nodes[j].idx]]
+
+---------------------------------------------------------------------------
+(* Seek: the prover's side (src/tree/merkle_tree.rs seek_untrusted_tree, seek_trusted_tree,          *)
+(* block_and_seek_proof, seek_proof), transcribed - unlike the block and upgrade sections, where the *)
+(* seek section starts cannot be derived from the verifier.                                          *)
+\* SeekMut = "absolute_bytes": the defect repaired in the crate (fix 17) as a deviation TLC must refute
+ByteOffset(i) == LET n == LeftSpan(i) \div 2
+                     F[k \in 0..n] == IF k = 0 THEN 0 ELSE F[k - 1] + Sizes[k] IN F[n]
+\* the loop of seek_trusted_tree: descend from root, to the left while the left child is too big,
+\* else to the right with the left child's bytes taken off; a left child of exactly `bytes` ends it
+RECURSIVE SeekTrusted(_, _)
+SeekTrusted(i, bytes) ==
+  IF i % 2 = 0 THEN i
+  ELSE LET l == LeftChild(i) sz == TrueNode(l).size IN
+       IF sz = bytes THEN l
+       ELSE IF sz > bytes THEN SeekTrusted(l, bytes)
+       ELSE SeekTrusted(RightChild(i), bytes - sz)
+\* -1: the request is refused ("Invalid seek"): the byte is not inside the sub tree
+SeekUntrusted(root, bytes) ==
+  LET off == ByteOffset(root) IN
+  IF off > bytes THEN -1
+  ELSE IF off = bytes THEN root
+  ELSE IF TrueNode(root).size <= bytes - off THEN -1
+  ELSE SeekTrusted(root, IF SeekMut = "absolute_bytes" THEN bytes ELSE bytes - off)
+RECURSIVE NodesToRoot(_, _)
+NodesToRoot(i, k) == IF k = 0 THEN i ELSE NodesToRoot(Parent(i), k - 1)
+\* seek_proof: the seek root, then its siblings on the way up to (excluding) `top`
+RECURSIVE SeekPath(_, _)
+SeekPath(cur, top) == IF cur = top THEN <<>> ELSE <<TrueNode(Sibling(cur))>> \o SeekPath(Parent(cur), top)
+SeekSection(seekroot, top) == <<TrueNode(seekroot)>> \o SeekPath(seekroot, top)
+\* block_and_seek_proof: climb from the requested node to the sub tree root; the sibling that
+\* contains the seek root (and is not it) is replaced by the seek section ending in it
+RECURSIVE BlockAndSeek(_, _, _)
+BlockAndSeek(cur, seekroot, root) ==
+  IF cur = root THEN [nodes |-> <<>>, seek |-> <<>>]
+  ELSE LET sib == Sibling(cur)
+           rest == BlockAndSeek(Parent(cur), seekroot, root) IN
+       IF Contains(sib, seekroot) /\ sib # seekroot
+       THEN [nodes |-> rest.nodes, seek |-> SeekSection(seekroot, sib)]
+       ELSE [nodes |-> <<TrueNode(sib)>> \o rest.nodes, seek |-> rest.seek]
+
+\* a request for block b (or the hash of node h) inside the replica's tree with a seek to `bytes`;
+\* ok = FALSE: the prover refuses (the byte lies outside the sub tree the nodes count spans)
+HonestSeekProof(rep, b, h, bytes, wl) ==
+  LET i == IF b >= 0 THEN 2 * b ELSE h
+      k == MissingNodes(rep, i)
+      sub == NodesToRoot(i, k)
+      sr == SeekUntrusted(sub, bytes)
+      base == HonestProof(rep, b, h, wl)       \* for the upgrade section
+      bs == BlockAndSeek(i, sr, sub)
+      sect == (IF b >= 0 THEN <<>> ELSE <<TrueNode(h)>>) \o bs.nodes IN
+  IF sr < 0 THEN [ok |-> FALSE]
+  ELSE [ok |-> TRUE, seekroot |-> sr, sub |-> sub,
+        proof |-> [base EXCEPT !.block = IF b < 0 THEN None ELSE [@ EXCEPT !.nodes = sect],
+                               !.hash = IF h < 0 THEN None ELSE [@ EXCEPT !.nodes = sect]],
+        seek |-> bs.seek]
 
 ---------------------------------------------------------------------------
 (* Soundness *)
